@@ -925,7 +925,11 @@ META = {
               "allowed classes pass through unchanged; witness for the old generic clause that leaked internal "
               "classes. Tied to run()/the APIs by raising each class inside the real transport thread and comparing "
               "what each API surfaces (24 cases, every run). The per-message decoders are not modelled: structured "
-              "fuzzing of both roles at every stage is the oracle for them and for code on the caller's thread."),
+              "fuzzing of both roles at every stage is the oracle for them and for code on the caller's thread; the "
+              "caller-thread sites found so far are driven exhaustively over their small input spaces every run: "
+              "SSHClient.connect x key type shown x known_hosts content, the server's USERAUTH_BANNER bytes x every "
+              "authentication entry point, replies to global requests (request_port_forward, global_request(wait=True)), "
+              "open_channel giving up as the answer arrives, GSS-API mechanism failures."),
     "note": ("Trusted: Lean kernel + 3 axioms; the harness. Not proved: that code running on the application's thread "
              "never raises an internal class from peer data (fuzz oracle only); SFTP and key-file parsing are other "
              "properties."),
